@@ -44,6 +44,36 @@ Bit(m, i) == (m \div (2 ^ i)) % 2 = 1
 SignedT == {"int8", "int16", "int32", "int64"}
 UnsignedT == {"uint8"}
 
+\* ---------------------------------------------------------------- equivalent encodings
+\* TFLite stores some attributes in several equivalent forms: an axis counted from the end (-1 = last dimension), a SLICE
+\* size of -1 (= up to the end).  The report's bullets are statements about the operator, not about how the file writes it
+\* down: every bullet is evaluated on the canonical encoding Canon(c), so two encodings of one operator get one Expect
+\* (design invariant EquivalentEncodingsSameExpect in SupportedOpsGen, over Encodings(c)).  A value outside
+\* [-rank, rank) is no encoding of anything and stays as it is (the range bullets then fail on it).
+\* Not an equivalence: the TRANSPOSE permutation (its bullet gives the range [0, RANK(IFM)) and TFLite has no other form),
+\* the -1 entries of SPLIT_V's size_splits (the bullet "Only one size is allowed to be inferred" is about that very form),
+\* STRIDED_SLICE begin / end (SsRanges below already reads both the raw and the effective values).
+HasAx == {"CONCATENATION", "SPLIT", "SPLIT_V", "ARG_MAX"}
+AxRank(c) == IF c.op = "CONCATENATION" THEN Len(c.so) ELSE Len(c.s1)
+CanonAx(a, r) == IF InR(a, -r, -1) THEN a + r ELSE a
+Canon(c) == [c EXCEPT !.ax = IF c.op \in HasAx THEN CanonAx(c.ax, AxRank(c)) ELSE c.ax,
+                      !.axes = IF c.op = "MEAN" THEN [i \in 1..Len(c.axes) |-> CanonAx(c.axes[i], Len(c.s1))] ELSE c.axes,
+                      !.sizes = IF c.op = "SLICE" /\ Len(c.sizes) = Len(c.s1) /\ Len(c.beg) = Len(c.s1)
+                                THEN [i \in 1..Len(c.sizes) |-> IF c.sizes[i] = -1 THEN c.s1[i] - c.beg[i] ELSE c.sizes[i]]
+                                ELSE c.sizes]
+\* the other ways of writing the same operator down (each axis on its own, all axes together)
+AxForms(a, r) == IF InR(a, 0, r - 1) THEN {a, a - r} ELSE IF InR(a, -r, -1) THEN {a, a + r} ELSE {a}
+Encodings(c) ==
+       {c}
+  \cup (IF c.op \in HasAx THEN {[c EXCEPT !.ax = a] : a \in AxForms(c.ax, AxRank(c))} ELSE {})
+  \cup (IF c.op = "MEAN" THEN UNION {{[c EXCEPT !.axes[i] = a] : a \in AxForms(c.axes[i], Len(c.s1))} : i \in 1..Len(c.axes)}
+                               \cup {[c EXCEPT !.axes = [i \in 1..Len(c.axes) |-> CanonAx(c.axes[i], Len(c.s1)) - Len(c.s1)]],
+                                     Canon(c)}
+         ELSE {})
+  \cup (IF c.op = "SLICE" /\ Len(c.sizes) = Len(c.s1) /\ Len(c.beg) = Len(c.s1)
+        THEN {Canon(c), [c EXCEPT !.sizes = [i \in 1..Len(c.sizes) |->
+                            IF c.sizes[i] = c.s1[i] - c.beg[i] THEN -1 ELSE c.sizes[i]]]} ELSE {})
+
 \* ---------------------------------------------------------------- derived quantities
 EKh(c) == (c.kh - 1) * c.dh + 1
 EKw(c) == (c.kw - 1) * c.dw + 1
@@ -59,8 +89,9 @@ TcOut(i, k, st, pad) == IF pad = "SAME" THEN i * st ELSE (i - 1) * st + k
 RECURSIVE DropAxes(_, _, _)
 DropAxes(s, A, i) == IF i > Len(s) THEN <<>>
                      ELSE IF (i - 1) \in A THEN DropAxes(s, A, i + 1) ELSE <<s[i]>> \o DropAxes(s, A, i + 1)
-MeanOut(c) == IF c.keep THEN [i \in 1..Len(c.s1) |-> IF (i - 1) \in Rng(c.axes) THEN 1 ELSE c.s1[i]]
-              ELSE DropAxes(c.s1, Rng(c.axes), 1)
+MeanOut(c) == LET A == Rng(Canon(c).axes) IN
+              IF c.keep THEN [i \in 1..Len(c.s1) |-> IF (i - 1) \in A THEN 1 ELSE c.s1[i]]
+              ELSE DropAxes(c.s1, A, 1)
 Ofm(c) == IF c.op \in K4 THEN <<c.b, OH(c), OW(c), OC(c)>> ELSE IF c.op = "MEAN" THEN MeanOut(c)
           ELSE IF c.op = "TRANSPOSE_CONV" THEN <<c.b, TcOut(c.h, c.kh, c.sh, c.pad) + c.odh, TcOut(c.w, c.kw, c.sw, c.pad), c.oc>>
           ELSE IF c.op = "ARG_MAX" THEN (IF InR(NormAx(c.ax, Len(c.s1)), 0, Len(c.s1) - 1)
@@ -91,11 +122,22 @@ StrideCrit(c) ==
               ELSE IF strict THEN "T" ELSE IF ~loose THEN "F" ELSE "U"
     IN And3(hr, wr)
 
+\* Broadcasting (TFLite / numpy): the shapes are aligned on their TRAILING dimensions, the shorter one is extended with
+\* leading 1s.  Ext(s, r) is s written with r dimensions.  The bullet holds iff, position by position from the end, the
+\* operand dimensions are equal or one of them is 1, and the OFM has the larger one (an OFM of another rank than the
+\* longer operand is no broadcast result at all: undecided).
+Ext(s, r) == IF Len(s) >= r THEN s ELSE [i \in 1..r |-> IF i <= r - Len(s) THEN 1 ELSE s[i - (r - Len(s))]]
+BcRank(c) == Max(Len(c.s1), Len(c.s2))
 Broadcast(c) ==
-    IF Len(c.s1) # Len(c.s2) \/ Len(c.so) # Len(c.s1) THEN "U"
-    ELSE T3(\A i \in 1..Len(c.s1) :
-               /\ (c.s1[i] = c.s2[i] \/ c.s1[i] = 1 \/ c.s2[i] = 1)
-               /\ c.so[i] = Max(c.s1[i], c.s2[i]))
+    LET r == BcRank(c)  a == Ext(c.s1, r)  b == Ext(c.s2, r) IN
+    IF Len(c.so) # r THEN "U"
+    ELSE T3(\A i \in 1..r :
+               /\ (a[i] = b[i] \/ a[i] = 1 \/ b[i] = 1)
+               /\ c.so[i] = Max(a[i], b[i]))
+\* the batch of an operand of a broadcasting operator is read off the shape it is extended to
+BcOps == ELT \cup BIN2
+BatchIfm(c) == IF c.op \in BcOps THEN Ext(Ifm(c), BcRank(c)) ELSE Ifm(c)
+BatchIfm2(c) == IF c.op \in BcOps THEN Ext(Ifm2(c), BcRank(c)) ELSE Ifm2(c)
 
 \* wfill: "max" = every weight is 127 (int8, zero point 0), "small" = every |weight| <= 1, "rand" = anything
 WSum(c) ==
@@ -122,9 +164,10 @@ MeanWidth(c) ==
 
 
 \* ---------------------------------------------------------------- constraint kinds of the operators added in round 4
-\* CONCATENATION: the text gives the axis range as [0, dims); a negative axis (counted from the end) is undecided
+\* CONCATENATION: the text gives the axis range as [0, dims); it is read on the canonical encoding (an axis counted from
+\* the end has been normalised by Canon), so -1 on a 4-D tensor is axis 3 and -5 is outside
 CcAxisOk(c) == InR(c.ax, 0, Len(c.so) - 1)
-CcAxis(c) == IF CcAxisOk(c) THEN "T" ELSE IF InR(c.ax, -Len(c.so), -1) THEN "U" ELSE "F"
+CcAxis(c) == T3(CcAxisOk(c))
 CcRanks(c) == Len(c.s1) = Len(c.so) /\ Len(c.s2) = Len(c.so)
 CcA(c) == NormAx(c.ax, Len(c.so)) + 1
 CcDims(c) == IF ~CcRanks(c) \/ ~InR(CcA(c), 1, Len(c.so)) THEN "U"
@@ -226,7 +269,7 @@ Eval(id, c) ==
       [] id = "int32ops" -> T3("int32" \in DataTypes(c) => c.op \in Int32Ops)
       [] id = "dims" -> T3(\A s \in Shapes(c) : \A d \in Rng(s) : InR(d, DimLo, DimHi))
       [] id = "peraxis" -> T3(c.op \in PerAxisOps \/ c.paq = "none")
-      [] id = "batch" -> And3(BatchEval(Ifm(c)), IF c.op \in HasIfm2 THEN BatchEval(Ifm2(c)) ELSE "T")
+      [] id = "batch" -> And3(BatchEval(BatchIfm(c)), IF c.op \in HasIfm2 THEN BatchEval(BatchIfm2(c)) ELSE "T")
       [] id = "outscalar" -> T3(Ofm(c) # <<>>)
       [] id = "faf" -> T3(c.faf = "NONE" \/ c.faf \in FafSet)
       [] id = "faftype" -> T3(c.faf = "NONE" \/ c.odt \in FafOutTypes)
@@ -274,8 +317,8 @@ Eval(id, c) ==
       [] id = "mean_depth" -> T3((Len(c.s1) - 1) \notin Rng(c.axes) \/ c.s1[Len(c.s1)] <= MeanDMax)
       [] OTHER -> Eval2(id, c)
 
-Failing(c) == IF c.op \in InTable THEN {id \in Listed[c.op] : Eval(id, c) = "F"} ELSE {"not-in-table"}
-Undecided(c) == IF c.op \in InTable THEN {id \in Listed[c.op] : Eval(id, c) = "U"} ELSE {}
+Failing(c) == IF c.op \in InTable THEN {id \in Listed[c.op] : Eval(id, Canon(c)) = "F"} ELSE {"not-in-table"}
+Undecided(c) == IF c.op \in InTable THEN {id \in Listed[c.op] : Eval(id, Canon(c)) = "U"} ELSE {}
 Expect(c) == IF Failing(c) # {} THEN "CPU"
              ELSE IF Undecided(c) # {} \/ c.op \in Unmodelled THEN "ANY"
              ELSE "NPU"
@@ -291,7 +334,10 @@ Z == [op |-> "", dt |-> "int8", dt2 |-> "int8", odt |-> "int8", wt |-> "int8", b
       alpha |-> "small", align |-> FALSE, half |-> FALSE, szmatch |-> TRUE, sizes |-> <<>>, beg |-> <<>>, end |-> <<>>,
       strd |-> <<>>, bmask |-> 0, emask |-> 0, ell |-> 0, newax |-> 0, shrink |-> 0, offs |-> FALSE, odh |-> 0,
       \* a set of command-line options no bullet of the report mentions ("" = none): it must not move any operator
-      nopt |-> ""]
+      nopt |-> "",
+      \* round 5: the second operand of a binary operator is a constant of the file (TRUE) or produced at run time (FALSE);
+      \* no bullet mentions it, so Expect cannot depend on it
+      c2const |-> FALSE]
 
 Nom(op) ==
     CASE op = "CONV_2D" -> [Z EXCEPT !.op = op, !.h = 9, !.w = 13, !.c = 8, !.kh = 3, !.kw = 3, !.oc = 8, !.wic = 8,
@@ -412,8 +458,32 @@ AvgPoolU ==
             a \in {ApVHHi - 1, ApVHHi}, b2 \in {ApVHHi, ApVHHi + 1}}
   \cup {[h |-> v, w |-> 2, kh |-> 1, kw |-> 1, axis |-> "dim_h"] : v \in DimPts}
 
+\* ---- operands of different ranks (and of equal ranks below 4): rank pairs (r, q) in 1..4 x 1..4.  The longer operand is
+\* BcBase(r) (leading 1: the batch bullet is decided); the shorter one runs over every pattern numpy allows against the last q
+\* dimensions (each dimension kept or 1), first or second operand, constant or produced at run time; plus shapes that only
+\* match when aligned on the LEADING dimensions (a prefix of the longer operand), which the bullet forbids.
+BcBase(r) == CASE r = 1 -> <<1>> [] r = 2 -> <<1, 8>> [] r = 3 -> <<1, 4, 8>> [] r = 4 -> <<1, 4, 6, 8>>
+Suffix(s, q) == [i \in 1..q |-> s[Len(s) - q + i]]
+Prefix(s, q) == [i \in 1..q |-> s[i]]
+BcPatterns(r, q) == {[i \in 1..q |-> IF m[i] = 1 THEN Suffix(BcBase(r), q)[i] ELSE 1] : m \in [1..q -> {0, 1}]}
+\* quick case set: the full suffix and the per-channel vector pattern only
+BcPatternsQ(r, q) == {Suffix(BcBase(r), q), [i \in 1..q |-> IF i = q THEN BcBase(r)[r] ELSE 1]}
+BcRankPairs == {<<r, q>> \in (1..4) \X (1..4) : q <= r /\ <<r, q>> # <<4, 4>>}
+BcRanksU ==
+       UNION {{[s1 |-> BcBase(p[1]), s2 |-> t, so |-> BcBase(p[1]), c2const |-> k, axis |-> "broadcast_ranks"] :
+                  t \in (IF WithPairs THEN BcPatterns(p[1], p[2]) ELSE BcPatternsQ(p[1], p[2])),
+                  k \in (IF WithPairs THEN BOOLEAN ELSE {(p[1] + p[2]) % 2 = 0})} : p \in BcRankPairs}
+  \cup UNION {{[s1 |-> t, s2 |-> BcBase(p[1]), so |-> BcBase(p[1]), c2const |-> k, axis |-> "broadcast_ranks_swapped"] :
+                  t \in (IF WithPairs THEN BcPatterns(p[1], p[2]) ELSE {Suffix(BcBase(p[1]), p[2])}),
+                  k \in (IF WithPairs THEN BOOLEAN ELSE {(p[1] + p[2]) % 2 = 1})} : p \in {x \in BcRankPairs : x[2] < x[1]}}
+  \cup {[s1 |-> BcBase(p[1]), s2 |-> Prefix(BcBase(p[1]), p[2]), so |-> BcBase(p[1]), axis |-> "broadcast_leading"] :
+            p \in {<<3, 2>>, <<4, 2>>, <<4, 3>>}}
+  \cup {[s1 |-> <<1, 4, 6, 8>>, s2 |-> t, so |-> <<1, 4, 6, 8>>, axis |-> "broadcast_ranks_mismatch"] : t \in {<<4>>, <<3, 8>>, <<6, 1, 8>>}}
+  \cup {[c2const |-> TRUE, axis |-> "second_operand_constant"],
+        [s2 |-> <<1, 1, 1, 8>>, c2const |-> TRUE, axis |-> "second_operand_constant"]}
+
 EltU(op) ==
-       GenericU(op)
+       BcRanksU \cup GenericU(op)
   \cup {TypeU(t) : t \in Types}
   \cup {[dt2 |-> "uint8", axis |-> "input_types_differ"], [odt |-> "uint8", axis |-> "signed_to_unsigned"],
         [dt |-> "uint8", dt2 |-> "uint8", odt |-> "int8", axis |-> "unsigned_to_signed"],
@@ -487,7 +557,8 @@ UnaryU(op) ==
   \cup (IF op = "LEAKY_RELU" THEN {[alpha |-> x, axis |-> "alpha"] : x \in {"small", "one", "big", "neg"}} ELSE {})
 
 BinU(op) ==
-       DtypeU
+       DtypeU \cup (IF "broadcast" \in Listed[op] THEN BcRanksU
+                    ELSE {u \in BcRanksU : u.axis \in {"broadcast_ranks", "broadcast_ranks_swapped", "second_operand_constant"}})
   \cup {[hasq |-> FALSE, axis |-> "noquant"], [odt |-> "int16", axis |-> "out_type"], [qmatch |-> FALSE, axis |-> "quant_differs"]}
   \cup {[s1 |-> s, s2 |-> s, so |-> s, axis |-> "rank"] : s \in RankShapes \cup {<<1>>}}
   \cup {[s1 |-> <<2, 6, 7, 8>>, s2 |-> <<2, 6, 7, 8>>, so |-> <<2, 6, 7, 8>>, axis |-> "batch"]}
@@ -507,7 +578,7 @@ ConcatU ==
        DtypeU
   \cup {[hasq |-> FALSE, axis |-> "noquant"], [qmatch |-> FALSE, axis |-> "quant_differs"]}
   \cup {[faf |-> f, axis |-> "faf"] : f \in Faf}
-  \cup {[s1 |-> p[1], s2 |-> p[2], so |-> p[3], ax |-> p[4], axis |-> "concat_axis"] : p \in ConcatShapes}
+  \cup UNION {{[s1 |-> p[1], s2 |-> p[2], so |-> p[3], ax |-> a, axis |-> "concat_axis"] : a \in AxForms(p[4], Len(p[3]))} : p \in ConcatShapes}
   \cup {[s2 |-> <<6, 7, 4>>, axis |-> "rank_differs"], [s2 |-> <<1, 6, 5, 4>>, axis |-> "dims_differ"],
         [so |-> <<1, 6, 7, 13>>, axis |-> "sum_differs"]}
   \cup {[s1 |-> <<1, 2, v, 2>>, s2 |-> <<1, 2, 1, 2>>, so |-> <<1, 2, v + 1, 2>>, ax |-> 2, axis |-> "dim_w"] :
@@ -519,7 +590,7 @@ SplitU ==
        DtypeU
   \cup {[hasq |-> FALSE, axis |-> "noquant"]}
   \cup {[s1 |-> <<2, 6, 8, 8>>, ax |-> a, so |-> SplitOut(<<2, 6, 8, 8>>, a, 2), axis |-> "split_axis"] :
-            a \in {-5, -4, -1, 0, 1, 2, 3, 4}}
+            a \in {-5, -4, -3, -2, -1, 0, 1, 2, 3, 4}}
   \cup {[n |-> k, so |-> SplitOut(<<1, 6, 7, 8>>, 3, k), axis |-> "num_splits"] : k \in {1, 2, 3, 4, 8}}
   \cup {[s1 |-> s, ax |-> Len(s) - 1, so |-> SplitOut(s, Len(s) - 1, 2), axis |-> "rank"] : s \in RankShapes}
   \cup {[s1 |-> <<2, 6, 7, 8>>, so |-> <<2, 6, 7, 4>>, axis |-> "batch"]}
@@ -533,7 +604,7 @@ SplitVU ==
                    <<<<2, -1, 4>>, 2>>}}
   \cup {[s1 |-> s, ax |-> Len(s) - 1, so |-> SvOut(s, Len(s) - 1, 3), axis |-> "rank"] : s \in RankShapes}
   \cup {[s1 |-> <<2, 6, 7, 8>>, so |-> <<2, 6, 7, 3>>, axis |-> "batch"]}
-  \cup {[ax |-> a, s1 |-> <<8, 8, 8, 8>>, so |-> SvOut(<<8, 8, 8, 8>>, a, 3), axis |-> "split_axis"] : a \in {0, 1, 2, -1}}
+  \cup {[ax |-> a, s1 |-> <<8, 8, 8, 8>>, so |-> SvOut(<<8, 8, 8, 8>>, a, 3), axis |-> "split_axis"] : a \in {0, 1, 2, 3, -1, -2, -3, -4}}
 
 SliceU ==
        DtypeU
@@ -641,7 +712,7 @@ ArgMaxU ==
        {[dt |-> t, hasq |-> t # "float32", axis |-> "dtype"] : t \in Types}
   \cup {[odt |-> t, axis |-> "out_type"] : t \in {"int32", "int64"}}
   \cup {[hasq |-> FALSE, axis |-> "noquant"]}
-  \cup {[ax |-> a, axis |-> "argmax_axis"] : a \in {-1, 1, 2, 3}}
+  \cup {[ax |-> a, axis |-> "argmax_axis"] : a \in {-4, -3, -2, -1, 0, 1, 2, 3}}
   \cup {[s1 |-> <<1, 2, 2, v>>, axis |-> "depth"] : v \in Points(1, ArgMaxDepth)}
   \cup {[s1 |-> s, ax |-> Len(s) - 1, axis |-> "rank"] : s \in RankShapes \ {<<8>>}}
   \cup {[s1 |-> <<2, 6, 7, 8>>, axis |-> "batch"]}
@@ -671,7 +742,14 @@ Updates0(op) ==
 \* every operator once more with the option that only changes the weight zero-point constraint: nothing else may move
 Updates(op) == Updates0(op) \cup NeutralU
 
-Single(op) == {Apply(Nom(op), u) : u \in Updates(op)} \cup {Nom(op)}
+Single0(op) == {Apply(Nom(op), u) : u \in Updates(op)} \cup {Nom(op)}
+\* every case in each of its equivalent encodings (axis counted from the front / from the end, SLICE size -1 / written out).
+\* Quick case set: MEAN (several axes per case, three variants per quick case) only with all axes counted from the end.
+EncodingsQ(c) == IF c.op # "MEAN" THEN Encodings(c)
+                 ELSE IF c.axis \in {"nominal", "mean_axes", "mean_width", "mean_depth", "mean_width_not_reduced"} /\ c.axes # <<>>
+                      THEN {c, [c EXCEPT !.axes = [i \in 1..Len(c.axes) |-> CanonAx(c.axes[i], Len(c.s1)) - Len(c.s1)]]}
+                      ELSE {c}
+Single(op) == UNION {IF WithPairs THEN Encodings(c) ELSE EncodingsQ(c) : c \in Single0(op)}
 Viol(op) == {u \in Updates(op) : Expect(Apply(Nom(op), u)) = "CPU"}
 \* pairs of simultaneous violations on disjoint parameters (a constraint that only applies under a condition, e.g.
 \* "SAME padding: ...", can be lifted by the other member of the pair: such combinations are not pairs of violations)
